@@ -36,8 +36,8 @@ Lemma on_av_packet_wrap_ok wait e : exists w evs, on_av_packet_wrap true wait e 
 Proof.
   unfold on_av_packet_wrap. cbn [andb].
   destruct ((pe_pt e =? 96)%Z || (pe_pt e =? 98)%Z); [|eauto].
-  destruct (lenN (pe_payload e) <? 5) eqn:E5; [eauto|]. apply N.ltb_ge in E5.
-  destruct (idx_ok s_ps_wrap_index (pe_payload e) 4) as [b4 ->]; [lia|]. cbn [bind].
+  destruct (lenN (pe_payload e) <=? leading_zeros (pe_payload e) + 1) eqn:E5; [eauto|]. apply N.leb_gt in E5.
+  destruct (idx_ok s_ps_wrap_index (pe_payload e) (leading_zeros (pe_payload e) + 1)) as [b4 ->]; [lia|]. cbn [bind].
   destruct wait; [|eauto].
   destruct (pe_pt e =? 96)%Z.
   - destruct ((b4 mod 32 =? 7) || (b4 mod 32 =? 8)); eauto.
@@ -78,10 +78,10 @@ Proof.
   destruct (idx_ok s_ps_readpts_index rb (off + 4)) as [b4 ->]; [lia|]. cbn [bind]. eauto.
 Qed.
 
-Lemma parse_pack_header_ok rb : exists c, parse_pack_header rb = Ok c.
+Lemma parse_pack_header_ok rb : exists c, parse_pack_header true rb = Ok c.
 Proof.
-  unfold parse_pack_header. destruct (lenN rb <=? 13) eqn:E; [eauto|]. apply N.leb_gt in E.
-  destruct (idx_ok s_ps_misc_index rb 13) as [b ->]; [lia|]. cbn [bind]. eauto.
+  unfold parse_pack_header. cbn [andb]. destruct (lenN rb <=? 13) eqn:E; [eauto|]. apply N.leb_gt in E.
+  destruct (idx_ok s_ps_misc_index rb 13) as [b ->]; [lia|]. cbn [bind]. destruct (lenN rb <? 14 + b mod 8); eauto.
 Qed.
 
 Lemma parse_pack_stream_body_ok rb : exists c, parse_pack_stream_body rb = Ok c.
